@@ -350,7 +350,7 @@ CHECKS = {
             cell('writer_reach', 'harness.h_sched', 'writer_reach', (120, 300), expect='REFUTED'),
             cell('seeker_reach', 'harness.h_sched', 'seeker_reach', (120, 300), expect='REFUTED'),
             cell('seeker2', 'harness.h_sched', 'seeker2', (400, 1200), replay_sweep={'t': list(range(1, 31))},
-                 bounds='reader of a LOOSE object that another client packs compressed and cleans at observation t in [1,30] of the read (second-chance look-up); three seek/read programs incl. seeks from the end; skip_if_missing symbolic',
+                 bounds='bulk reader of two LOOSE objects that another client packs compressed and cleans at observation t in [1,30] of the read (second-chance look-up); three seek/read programs incl. seeks from the end on each stream; descriptor census; skip_if_missing symbolic',
                  samples=[dict(s0=66000, z0=50, t=3, prog=2, skip=True), dict(s0=5, z0=50, t=1, prog=0, skip=False)]),
             cell('seeker2_reach', 'harness.h_sched', 'seeker2_reach', (120, 300), expect='REFUTED'),
         ],
@@ -529,6 +529,11 @@ CHECKS = {
                  'connection open all the time' if wl == 'wal' else 'no other connection besides the acting client'),
                  samples=[dict(s0=66000, tp=6, tc=7), dict(s0=5, tp=5, tc=5), dict(s0=5, tp=8, tc=9)])
             for wl in ('nowal', 'wal') for cl in ('keep', 'clean') for ta in (5, 8) for td in (5, 9, 11)
+        ] + [
+            cell('backup_small_%s_%s' % (wl, cl), 'harness.h_backup', 'backup_small_%s_%s' % (wl, cl), (500, 1500),
+                 bounds='as backup_sched_* with pack_size_target = 10 (every packed object opens a new pack file during the backup); pack (clean_loose_per_pack=%s), clean and direct-to-pack instants symbolic in [5,11]; %s' % (cl == 'clean', 'further open connection' if wl == 'wal' else 'no further connection'),
+                 samples=[dict(s0=66000, tp=6, tc=7, td=9), dict(s0=5, tp=5, tc=5, td=11)])
+            for wl in ('nowal', 'wal') for cl in ('keep', 'clean')
         ] + [
             cell('backup_again', 'harness.h_backup', 'backup_again', (900, 1800), thorough_only=True,
                  bounds='two successive backups (the second incremental on the first), events during the first',
